@@ -30,7 +30,7 @@ COMPONENTS = {'PIT / MPS / SuperNet wrappers, all searchable layers, export, sum
               'seed networks': 'generated from a grammar', 'training loop and the interrupting observer calls': 'simulated'}
 SIM_TIME_UNIT = 'ops of the simulated training loop'
 
-BASE_WEIGHTS = {'ckpt': 0.8, 'train_step': 6, 'backward_only': 1.5, 'opt_step': 1.5, 'forward_only': 2, 'perturb_arch': 1.5, 'perturb_net': 0.8,
+BASE_WEIGHTS = {'ckpt': 0.8, 'train_burst': 0.4, 'train_step': 6, 'backward_only': 1.5, 'opt_step': 1.5, 'forward_only': 2, 'perturb_arch': 1.5, 'perturb_net': 0.8,
                 'set_mode': 1.5, 'train_group': 1, 'set_flag': 0.7, 'softmax_opts': 1.2, 'read_cost': 2.5,
                 'read_summary': 1}
 OBS_WEIGHTS = {'export': 5, 'export_nobn': 1.5, 'summary': 3, 'str': 0.7, 'cost': 2, 'get_cost': 1.5,
